@@ -16,6 +16,11 @@ def run_harness(binpath, args, topo=None, timeout=600, env=None):
     if env:
         e.update(env)
     rc, out, dt = sh([binpath] + [str(a) for a in args], timeout=timeout, env=e)
+    if rc == 124:
+        # a wall-clock bound is the only evidence of a hang in free-running / jittered modes and depends on the load of the
+        # machine: a run that did not finish is repeated once with three times the bound before it is reported
+        log("  (harness %s did not finish within %ds; repeating once with %ds)" % (os.path.basename(str(binpath)), timeout, 3 * timeout))
+        rc, out, dt = sh([binpath] + [str(a) for a in args], timeout=3 * timeout, env=e)
     return rc, out, dt
 
 
